@@ -79,3 +79,13 @@ MUTANTS = [
     m("region-4-5-swapped", ["C08"], SEQ, "                    \"Algorithm bug when coping with phase plot regions\")\n            return 5", "                    \"Algorithm bug when coping with phase plot regions\")\n            return 4"),
     m("region-fcr-.26", ["C08"], SEQ, "        if(fcr < .25):\n            return 1", "        if(fcr < .26):\n            return 1"),
 ]
+
+import glob as _glob
+import importlib.util as _ilu
+import os as _os
+for _f in sorted(_glob.glob(_os.path.join(_os.path.dirname(_os.path.abspath(__file__)), "mutants_*.py"))):
+    _spec = _ilu.spec_from_file_location(_os.path.basename(_f)[:-3], _f)
+    _mod = _ilu.module_from_spec(_spec)
+    _mod.m = m
+    _spec.loader.exec_module(_mod)
+    MUTANTS.extend(_mod.MUTANTS)
